@@ -194,6 +194,13 @@ try:
 except ImportError:
     pass
 
+try:
+    import gen_walkskel
+    MODULES['WalkSkel'] = gen_walkskel.generate
+    MODULES['WalkSkelMutants'] = gen_walkskel.generate_mutants
+except ImportError:
+    pass
+
 def main():
     args = sys.argv[1:]
     repo = '/repo'
